@@ -53,12 +53,12 @@ package internal
 //@ ensures fin: !isinf(pt(p)) ==> len(result) == 65 && cap(result) == 65 && result[0] == 4 && be(result[1:33]) == affx(pt(p)) && be(result[33:65]) == affy(pt(p))
 //@ assigns nothing
 
-//@ func (*sm2/internal.SM2Point).GetAffineX_Unsafe
+//@ func (*sm2/internal.SM2Point).GetAffineX_Unsafe#ext
 //@ mode int
 //@ ensures val: *result == ite(isinf(pt(p)), 0, affx(pt(p)))
 //@ assigns nothing
 
-//@ func (*sm2/internal.SM2Point).GetAffineX
+//@ func (*sm2/internal.SM2Point).GetAffineX#ext
 //@ mode int
 //@ ensures val: *result == ite(isinf(pt(p)), 0, affx(pt(p)))
 //@ assigns nothing
@@ -303,3 +303,21 @@ package internal
 //@ gexp_base P
 //@ gexp_table sm2Precomputed_6_3_14 dims=j window=6 weight=42*t+14*j+4
 //@ gexp_table sm2Precomputed_6_3_14_Remainder window=4 weight=t
+
+// Affine x on the coordinates (property C15: the constant-time and the fast conversion agree): both return
+// x * z^-1 mod p, or 0 when z = 0. The abstract views (#ext, above) are what the sm2 package uses.
+//@ func (*sm2/internal.SM2Point).GetAffineX
+//@ mode int
+//@ requires wf: nonnil(p.x) && nonnil(p.z) && oksm2(p.x) && oksm2(p.z)
+//@ ensures val: *result == ite(fv(p.z) == 0, 0, (fv(p.x) * invmod(fv(p.z), P)) % P)
+//@ assigns nothing
+
+// package-initialisation fact (init sets the curve parameters; constants checked in C18)
+//@ global_fact curveP: *sm2.params.P == P
+
+//@ func (*sm2/internal.SM2Point).GetAffineX_Unsafe
+//@ mode int
+//@ requires wf: nonnil(p.x) && nonnil(p.z) && oksm2(p.x) && oksm2(p.z)
+//@ requires canon: 0 <= fv(p.x) && fv(p.x) < P && 0 <= fv(p.z) && fv(p.z) < P
+//@ ensures val: *result == ite(fv(p.z) == 0, 0, (fv(p.x) * invmod(fv(p.z), P)) % P)
+//@ assigns nothing
